@@ -103,6 +103,12 @@ def unwrapped_copy_sources(f, local):
                 o = x["o"][0]
                 if "p" in o:
                     st.append(o["p"][0])
+            elif kind == "stmt" and x.get("k") == "agg" and x.get("variant") in ("Ok", "Some") and x.get("o"):
+                # the success wrapper of a helper folded into this function
+                if "p" in x["o"][0]:
+                    st.append(x["o"][0]["p"][0])
+            elif kind == "call" and x.name == "from_residual":
+                continue  # the failure side of a `?`: carries an error, never the content
             elif kind == "call":
                 if x.name in ("branch", "clone", "deref", "into", "from", "to_string", "to_owned", "unwrap", "expect", "map_err"):
                     for a in x.args[:1]:
